@@ -4,10 +4,12 @@ import (
 	"bytes"
 	"encoding/json"
 	"fmt"
+	"hash/fnv"
 	"io"
 	"math/big"
 	"sort"
 	"strings"
+	"unicode/utf16"
 
 	cedar "github.com/cedar-policy/cedar-go"
 	pubast "github.com/cedar-policy/cedar-go/ast"
@@ -276,7 +278,260 @@ func opPJSON(c Obj) J {
 		}
 	}
 	out["az"] = az
+	// the same document in spellings the format allows and only other encoders write
+	alts := []any{}
+	all := policyRespellings(out["json"])
+	// two of the applicable respellings per event, chosen by the document itself (validation cost, determinism)
+	h := fnv.New32a()
+	h.Write(b)
+	pick := all
+	if len(all) > 2 {
+		i, j := int(h.Sum32()%uint32(len(all))), int((h.Sum32()/64)%uint32(len(all)-1))
+		if j >= i {
+			j++
+		}
+		pick = []respelled{all[i], all[j]}
+	}
+	for _, a := range pick {
+		var buf bytes.Buffer
+		a.write(a.doc, &buf)
+		entry := Obj{"how": a.how, "json": a.doc, "strict": a.strict}
+		var p cedar.Policy
+		if err := guardE(func() error { return p.UnmarshalJSON(buf.Bytes()) }); err != nil {
+			entry["back"] = Obj{"ok": false, "err": ascii(err.Error())}
+		} else {
+			pj := cwf.PolicyToJ((*ast.Policy)(p.AST()))
+			tables = append(tables, pj)
+			entry["back"] = Obj{"ok": true, "policy": pj}
+			entry["az"] = outcomes(&p, envs)
+		}
+		alts = append(alts, entry)
+	}
+	out["alts"] = alts
 	out["names"] = jsonNameTable(tables...)
+	return out
+}
+
+func guardE(f func() error) (err error) {
+	defer func() {
+		if r := recover(); r != nil {
+			err = fmt.Errorf("panic: %v", r)
+		}
+	}()
+	return f()
+}
+
+// ---------------------------------------------------------------- respellings of a policy document
+
+type respelled struct {
+	how    string
+	doc    J    // TJSON of the respelled document (what the specification reads)
+	strict bool // the specification must read the same policy from it (else: judged only if it does)
+	write  func(J, *bytes.Buffer)
+}
+
+// tMap rebuilds a TJSON tree bottom-up: f sees every node after its children were rebuilt; path is the list of
+// object keys from the root ("#" for array elements)
+func tMap(j J, path []string, f func(path []string, j J) J) J {
+	o, _ := j.(Obj)
+	switch {
+	case o["a"] != nil:
+		arr := []any{}
+		for _, it := range o["a"].([]any) {
+			arr = append(arr, tMap(it, append(path[:len(path):len(path)], "#"), f))
+		}
+		j = Obj{"a": arr}
+	case o["o"] != nil:
+		ms := []any{}
+		for _, m := range o["o"].([]any) {
+			k := tKey(m)
+			ms = append(ms, tMember(k, tMap(m.(Obj)["v"], append(path[:len(path):len(path)], k), f)))
+		}
+		j = Obj{"o": ms}
+	}
+	return f(path, j)
+}
+
+func lastKey(path []string, back int) string {
+	if len(path) < back {
+		return ""
+	}
+	return path[len(path)-back]
+}
+
+// inScope: the node is an entity reference of a scope (principal / action / resource: entity, entities[], in.entity)
+func inScope(path []string) bool {
+	if len(path) < 2 || (path[0] != "principal" && path[0] != "action" && path[0] != "resource") {
+		return false
+	}
+	rest := strings.Join(path[1:], "/")
+	return rest == "entity" || rest == "entities/#" || rest == "in/entity"
+}
+
+// inExpr: the path lies in a condition body
+func inExpr(path []string) bool { return len(path) >= 3 && path[0] == "conditions" && path[2] == "body" }
+
+func reverseMembers(j J) J {
+	ms, ok := tMembers(j)
+	if !ok {
+		return j
+	}
+	out := make([]any, len(ms))
+	for i, m := range ms {
+		out[len(ms)-1-i] = m
+	}
+	return Obj{"o": out}
+}
+
+// writeEscaped: every string and key with \uXXXX escapes for all of its UTF-16 units, and generous white space
+func writeEscaped(j J, w *bytes.Buffer) {
+	esc := func(s string) {
+		w.WriteByte('"')
+		for _, u := range utf16.Encode([]rune(s)) {
+			fmt.Fprintf(w, "\\u%04X", u)
+		}
+		w.WriteByte('"')
+	}
+	o := j.(Obj)
+	switch {
+	case o["s"] != nil:
+		esc(must(cwf.JToStr(o["s"])))
+	case o["a"] != nil:
+		w.WriteString("[ ")
+		for i, it := range o["a"].([]any) {
+			if i > 0 {
+				w.WriteString("\n,\t")
+			}
+			writeEscaped(it, w)
+		}
+		w.WriteString(" ]")
+	case o["o"] != nil:
+		w.WriteString("{\r\n")
+		for i, m := range o["o"].([]any) {
+			if i > 0 {
+				w.WriteString(" , ")
+			}
+			esc(tKey(m))
+			w.WriteString(" :\n")
+			writeEscaped(m.(Obj)["v"], w)
+		}
+		w.WriteString("\t}")
+	default:
+		fromTJSON(j, w)
+	}
+}
+
+func policyRespellings(doc J) []respelled {
+	if _, ok := tMembers(doc); !ok {
+		return nil
+	}
+	var out []respelled
+	add := func(how string, strict bool, d J, write func(J, *bytes.Buffer)) {
+		var a, b bytes.Buffer
+		fromTJSON(doc, &a)
+		fromTJSON(d, &b)
+		if write == nil && bytes.Equal(a.Bytes(), b.Bytes()) {
+			return // nothing to respell in this document
+		}
+		if write == nil {
+			write = fromTJSON
+		}
+		out = append(out, respelled{how, d, strict, write})
+	}
+	// scope entities in the explicit spelling; entity values of expressions in the implicit one
+	add("explicit-scope-entities", true, tMap(doc, nil, func(path []string, j J) J {
+		if inScope(path) {
+			return flipEntRef(j)
+		}
+		return j
+	}), nil)
+	add("implicit-entity-values", false, tMap(doc, nil, func(path []string, j J) J {
+		if inExpr(path) && lastKey(path, 1) == "Value" {
+			if inner, ok := tGet(j, "__entity"); ok {
+				return inner
+			}
+		}
+		return j
+	}), nil)
+	// pattern literals split in two, with an empty literal in between
+	add("split-pattern-literals", true, tMap(doc, nil, func(path []string, j J) J {
+		if !inExpr(path) || lastKey(path, 1) != "pattern" || lastKey(path, 2) != "like" {
+			return j
+		}
+		items, _ := j.(Obj)["a"].([]any)
+		arr := []any{}
+		for _, it := range items {
+			lit, ok := tGet(it, "Literal")
+			if !ok {
+				arr = append(arr, it)
+				continue
+			}
+			r := []rune(must(cwf.JToStr(lit.(Obj)["s"])))
+			h := len(r) / 2
+			arr = append(arr, tObj(tMember("Literal", tStr(string(r[:h])))), tObj(tMember("Literal", tStr(""))),
+				tObj(tMember("Literal", tStr(string(r[h:])))))
+		}
+		if len(items) == 0 {
+			arr = append(arr, tObj(tMember("Literal", tStr(""))))
+		}
+		return Obj{"a": arr}
+	}), nil)
+	// extension values <-> constructor calls
+	add("extension-values-as-calls", false, tMap(doc, nil, func(path []string, j J) J {
+		if !inExpr(path) {
+			return j
+		}
+		if v, ok := tGet(j, "Value"); ok {
+			if x, ok := tGet(v, "__extn"); ok {
+				fn, ok1 := tGet(x, "fn")
+				arg, ok2 := tGet(x, "arg")
+				if ok1 && ok2 {
+					return tObj(tMember(must(cwf.JToStr(fn.(Obj)["s"])), Obj{"a": []any{tObj(tMember("Value", arg))}}))
+				}
+			}
+		}
+		return j
+	}), nil)
+	add("constructor-calls-as-values", false, tMap(doc, nil, func(path []string, j J) J {
+		ms, ok := tMembers(j)
+		if !inExpr(path) || !ok || len(ms) != 1 {
+			return j
+		}
+		fn := tKey(ms[0])
+		if fn != "decimal" && fn != "ip" && fn != "datetime" && fn != "duration" {
+			return j
+		}
+		args, _ := ms[0].(Obj)["v"].(Obj)["a"].([]any)
+		if len(args) != 1 {
+			return j
+		}
+		if v, ok := tGet(args[0], "Value"); ok {
+			if _, isStr := v.(Obj)["s"]; isStr {
+				return tObj(tMember("Value", tObj(tMember("__extn", tObj(tMember("fn", tStr(fn)), tMember("arg", v))))))
+			}
+		}
+		return j
+	}), nil)
+	// member order reversed in every object (scopes, operands, record literals, annotations, the document)
+	add("reversed-member-order", true, tMap(doc, nil, func(path []string, j J) J { return reverseMembers(j) }), nil)
+	// the members the encoder omits when empty, written out
+	explicit := func(path []string, j J) J {
+		if len(path) != 0 {
+			return j
+		}
+		ms, _ := tMembers(j)
+		ms = append([]any(nil), ms...)
+		if _, ok := tGet(j, "annotations"); !ok {
+			ms = append(ms, tMember("annotations", tObj()))
+		}
+		if _, ok := tGet(j, "conditions"); !ok {
+			ms = append(ms, tMember("conditions", Obj{"a": []any{}}))
+		}
+		return Obj{"o": ms}
+	}
+	add("explicit-empty-members", true, tMap(doc, nil, explicit), nil)
+	// the same document, every string escaped and white space everywhere
+	add("escaped-strings-and-white-space", true, doc, writeEscaped)
 	return out
 }
 
